@@ -69,7 +69,7 @@ def execute_c08(case):
         steps.append(['apply', t, [['ret', 7]], {}])
     for t in done:
         steps.append(['wait', t, 30])
-    running = case['running'][:procs] if threads else []
+    running = case['running'][:procs]
     for i, kind in enumerate(running):
         if kind == 'sleep':
             steps.append(['apply', 'r%d' % i, [['mark', 'r%d' % i], ['sleep', 40]],
@@ -79,12 +79,15 @@ def execute_c08(case):
                                                ['stubborn', 2.5], ['ret', 1]], {}])
     for i in range(len(running)):
         steps.append(['wait_mark', 'r%d' % i, 30])
-    queued = case['queued'] if threads else 0
+    queued = case['queued']
     for i in range(queued):
         steps.append(['apply', 'q%d' % i, [['sleep', 0.05], ['ret', i]], {}])
     action = case['action']
     if action in ('terminate_job', 'sigterm') and not running:
         action = 'terminate'
+    # let freshly started workers reach their idle state (blocked in the read of
+    # the task queue, holding its read lock)
+    steps.append(['sleep', 0.6])
     steps.append(['snapshot', 'before'])
     if action == 'terminate':
         steps.append(['terminate'])
@@ -356,6 +359,17 @@ def execute_c04(case):
         if tag not in dies:
             return inconclusive('victim %s never ran' % tag, labels)
         pid, t_die = dies[tag]
+        # known finding D7 in the real world: the supervisor reaped the victim
+        # before the result handler consumed its ACK
+        t_down = [d[2] for d in obs.get('downs', []) if d[0] == pid]
+        acc = rec.get('accept')
+        if t_down and (not acc or acc[2] > t_down[0]):
+            labels.append('ack_consumed_after_reap')
+            if not rec.get('ready') or out.get('type') != 'WorkerLostError' or \
+                    'exitcode 0' in out.get('args', ''):
+                return bad('C04/real-ack-after-reap', 'job %s: worker %d reaped '
+                           'before its ACK was consumed; outcome %r' % (
+                               tag, pid, out), nontrivial, labels)
         if not rec.get('ready'):
             return bad('C04/real-unresolved', 'job %s whose worker died (%r) is '
                        'unresolved 60 s later' % (tag, death), nontrivial, labels)
